@@ -2090,6 +2090,99 @@ def current_date (date : Int) (_sub_day : Int) : Chk Int :=
 def current_date_safe (date : Int) (_sub_day : Int) : Prop :=
   True
 
+/-- `date.rs::Date::round_week_internal` (date.rs:402), body sha1 247aed71a25e -/
+def Date.round_week_internal (self : Int) (year : Int) : Chk Int :=
+  -- date.rs:403: const WEEK_TABLE: [(DateSubMethod, i32); 8] = [
+  let WEEK_TABLE : List (Bool × Int) :=
+    [(false, 0), (true, 1), (true, 2), (true, 3), (true, -3), (true, -2), (true, -1), (true, 0)]
+  -- date.rs:414: let week_day = self.sub_date({ Date::from_ymd_unchecked(year, 1, 1) }) % 7;
+  let week_day : Int := rrem (Tr.Date.sub_date self (Tr.Date.from_ymd_unchecked year 1 1)) 7
+  -- date.rs:415: let (to_first_date_of_week, remain_day) = WEEK_TABLE[week_day as usize];
+  let to_first_date_of_week_remain_day : Bool × Int := idxD WEEK_TABLE (asU64 week_day) (false, 0)
+  let to_first_date_of_week : Bool := to_first_date_of_week_remain_day.1
+  let remain_day : Int := to_first_date_of_week_remain_day.2
+  if to_first_date_of_week = true then Tr.sub_to_date self remain_day else Tr.current_date self remain_day
+
+/-- No arithmetic node of `date.rs::Date::round_week_internal` leaves its Rust integer type, no division by zero, no index out of range
+    (path-sensitive; calls contribute the callee's predicate). -/
+def Date.round_week_internal_safe (self : Int) (year : Int) : Prop :=
+  let WEEK_TABLE : List (Bool × Int) :=
+    [(false, 0), (true, 1), (true, 2), (true, 3), (true, -3), (true, -2), (true, -1), (true, 0)]
+  Tr.Date.from_ymd_unchecked_safe year 1 1 ∧
+  Tr.Date.sub_date_safe self (Tr.Date.from_ymd_unchecked year 1 1) ∧
+  let week_day : Int := rrem (Tr.Date.sub_date self (Tr.Date.from_ymd_unchecked year 1 1)) 7
+  0 ≤ asU64 week_day ∧
+  asU64 week_day < 8 ∧
+  let to_first_date_of_week_remain_day : Bool × Int := idxD WEEK_TABLE (asU64 week_day) (false, 0)
+  let to_first_date_of_week : Bool := to_first_date_of_week_remain_day.1
+  let remain_day : Int := to_first_date_of_week_remain_day.2
+  (to_first_date_of_week = true → Tr.sub_to_date_safe self remain_day) ∧
+  (¬ to_first_date_of_week = true → Tr.current_date_safe self remain_day)
+
+/-- `date.rs::Date::round_month_start_week_internal` (date.rs:420), body sha1 350a2329bddd -/
+def Date.round_month_start_week_internal (self : Int) (day : Int) : Chk Int :=
+  -- date.rs:421: const MONTH_START_WEEK_TABLE: [(DateSubMethod, i32); 8] = [
+  let MONTH_START_WEEK_TABLE : List (Bool × Int) :=
+    [(true, -1), (false, 0), (true, 1), (true, 2), (true, 3), (true, -3), (true, -2), (true, 0)]
+  -- date.rs:432: let week_day = day % 7;
+  let week_day : Int := rrem day 7
+  -- date.rs:433: let (to_first_date_of_week, remain_day) = MONTH_START_WEEK_TABLE[week_day as usize];
+  let to_first_date_of_week_remain_day : Bool × Int := idxD MONTH_START_WEEK_TABLE (asU64 week_day) (false, 0)
+  let to_first_date_of_week : Bool := to_first_date_of_week_remain_day.1
+  let remain_day : Int := to_first_date_of_week_remain_day.2
+  if to_first_date_of_week = true then Tr.sub_to_date self remain_day else Tr.current_date self remain_day
+
+/-- No arithmetic node of `date.rs::Date::round_month_start_week_internal` leaves its Rust integer type, no division by zero, no index out of range
+    (path-sensitive; calls contribute the callee's predicate). -/
+def Date.round_month_start_week_internal_safe (self : Int) (day : Int) : Prop :=
+  let MONTH_START_WEEK_TABLE : List (Bool × Int) :=
+    [(true, -1), (false, 0), (true, 1), (true, 2), (true, 3), (true, -3), (true, -2), (true, 0)]
+  let week_day : Int := rrem day 7
+  0 ≤ asU64 week_day ∧
+  asU64 week_day < 8 ∧
+  let to_first_date_of_week_remain_day : Bool × Int := idxD MONTH_START_WEEK_TABLE (asU64 week_day) (false, 0)
+  let to_first_date_of_week : Bool := to_first_date_of_week_remain_day.1
+  let remain_day : Int := to_first_date_of_week_remain_day.2
+  (to_first_date_of_week = true → Tr.sub_to_date_safe self remain_day) ∧
+  (¬ to_first_date_of_week = true → Tr.current_date_safe self remain_day)
+
+/-- `date.rs::Trunc for Date::trunc_century` (date.rs:451), body sha1 18e029996a6b -/
+-- inlined helpers: date.rs::DateTime for Date::year
+def Date.trunc_century (self : Int) : Chk Int :=
+  -- date.rs:452: let mut year = self.year().unwrap();
+  let year : Int :=
+    (fun (self : Int) => let t1 : Int × Int × Int := Tr.Date.extract self; let year : Int := t1.1; year) self
+  -- date.rs:454: if year % 100 == 0 {
+  let year : Int :=
+    if rrem year 100 = 0 then
+      -- date.rs:455: year -= 1;
+      let year : Int := year - 1
+      year
+    else
+      year
+  -- date.rs:458: year = year / 100 * 100 + 1;
+  let year : Int := rdiv year 100 * 100 + 1
+  Except.ok (Tr.Date.from_ymd_unchecked year 1 1)
+
+/-- No arithmetic node of `date.rs::Trunc for Date::trunc_century` leaves its Rust integer type, no division by zero, no index out of range
+    (path-sensitive; calls contribute the callee's predicate). -/
+def Date.trunc_century_safe (self : Int) : Prop :=
+  (fun (self : Int) => Tr.Date.extract_safe self) self ∧
+  let year : Int :=
+    (fun (self : Int) => let t1 : Int × Int × Int := Tr.Date.extract self; let year : Int := t1.1; year) self
+  (rrem year 100 = 0 → fitsI32 (year - 1)) ∧
+  let year : Int :=
+    if rrem year 100 = 0 then
+      -- date.rs:455: year -= 1;
+      let year : Int := year - 1
+      year
+    else
+      year
+  fitsI32 (rdiv year 100 * 100) ∧
+  fitsI32 (rdiv year 100 * 100 + 1) ∧
+  let year : Int := rdiv year 100 * 100 + 1
+  Tr.Date.from_ymd_unchecked_safe year 1 1
+
 /-- `date.rs::Trunc for Date::trunc_year` (date.rs:463), body sha1 8042d0203977 -/
 -- inlined helpers: date.rs::DateTime for Date::year
 def Date.trunc_year (self : Int) : Chk Int :=
@@ -2100,6 +2193,49 @@ def Date.trunc_year (self : Int) : Chk Int :=
 def Date.trunc_year_safe (self : Int) : Prop :=
   (fun (self : Int) => Tr.Date.extract_safe self) self ∧
   (Tr.Date.from_ymd_unchecked_safe ((fun (self : Int) => let t1 : Int × Int × Int := Tr.Date.extract self; let year : Int := t1.1; year) self) 1 1)
+
+/-- `date.rs::Trunc for Date::trunc_quarter` (date.rs:477), body sha1 cd9b00ea0e1d -/
+def Date.trunc_quarter (self : Int) : Chk Int :=
+  -- date.rs:478: const QUARTER_FIRST_MONTH: [u32; 12] = [1, 1, 1, 4, 4, 4, 7, 7, 7, 10, 10, 10];
+  let QUARTER_FIRST_MONTH : List Int := [1, 1, 1, 4, 4, 4, 7, 7, 7, 10, 10, 10]
+  -- date.rs:480: let (year, month, _) = self.extract();
+  let year_month : Int × Int × Int := Tr.Date.extract self
+  let year : Int := year_month.1
+  let month : Int := year_month.2.1
+  -- date.rs:481: let quarter_month = QUARTER_FIRST_MONTH[month as usize - 1];
+  let quarter_month : Int := idxD QUARTER_FIRST_MONTH (month - 1) 0
+  Except.ok (Tr.Date.from_ymd_unchecked year quarter_month 1)
+
+/-- No arithmetic node of `date.rs::Trunc for Date::trunc_quarter` leaves its Rust integer type, no division by zero, no index out of range
+    (path-sensitive; calls contribute the callee's predicate). -/
+def Date.trunc_quarter_safe (self : Int) : Prop :=
+  let QUARTER_FIRST_MONTH : List Int := [1, 1, 1, 4, 4, 4, 7, 7, 7, 10, 10, 10]
+  Tr.Date.extract_safe self ∧
+  let year_month : Int × Int × Int := Tr.Date.extract self
+  let year : Int := year_month.1
+  let month : Int := year_month.2.1
+  fitsU64 (month - 1) ∧
+  0 ≤ month - 1 ∧
+  month - 1 < 12 ∧
+  let quarter_month : Int := idxD QUARTER_FIRST_MONTH (month - 1) 0
+  Tr.Date.from_ymd_unchecked_safe year quarter_month 1
+
+/-- `date.rs::Trunc for Date::trunc_month` (date.rs:487), body sha1 72100addc94c -/
+def Date.trunc_month (self : Int) : Chk Int :=
+  -- date.rs:488: let (year, month, _) = self.extract();
+  let year_month : Int × Int × Int := Tr.Date.extract self
+  let year : Int := year_month.1
+  let month : Int := year_month.2.1
+  Except.ok (Tr.Date.from_ymd_unchecked year month 1)
+
+/-- No arithmetic node of `date.rs::Trunc for Date::trunc_month` leaves its Rust integer type, no division by zero, no index out of range
+    (path-sensitive; calls contribute the callee's predicate). -/
+def Date.trunc_month_safe (self : Int) : Prop :=
+  Tr.Date.extract_safe self ∧
+  let year_month : Int × Int × Int := Tr.Date.extract self
+  let year : Int := year_month.1
+  let month : Int := year_month.2.1
+  Tr.Date.from_ymd_unchecked_safe year month 1
 
 /-- `date.rs::Trunc for Date::trunc_week` (date.rs:493), body sha1 097a9672699e -/
 -- inlined helpers: date.rs::DateTime for Date::year
@@ -2124,6 +2260,59 @@ def Date.trunc_week_safe (self : Int) : Prop :=
     rrem (Tr.Date.sub_date self (Tr.Date.from_ymd_unchecked ((fun (self : Int) => let t1 : Int × Int × Int := Tr.Date.extract self; let year : Int := t1.1; year) self) 1 1)) 7
   Tr.Date.sub_days_safe self trunc_day
 
+/-- `date.rs::Trunc for Date::trunc_iso_week` (date.rs:501), body sha1 96c7f86a1711 -/
+def Date.trunc_iso_week (self : Int) : Chk Int :=
+  -- date.rs:502: const ISO_WEEK_TABLE: [(DateSubMethod, i32); 8] = [
+  let ISO_WEEK_TABLE : List (Bool × Int) :=
+    [(true, 0), (true, 6), (false, 0), (true, 1), (true, 2), (true, 3), (true, 4), (true, 5)]
+  -- date.rs:513: let week_day = self.day_of_week() as usize;
+  let week_day : Int := Tr.Date.day_of_week self
+  -- date.rs:514: let (to_first_date_of_week, remain_day) = ISO_WEEK_TABLE[week_day];
+  let to_first_date_of_week_remain_day : Bool × Int := idxD ISO_WEEK_TABLE week_day (false, 0)
+  let to_first_date_of_week : Bool := to_first_date_of_week_remain_day.1
+  let remain_day : Int := to_first_date_of_week_remain_day.2
+  if to_first_date_of_week = true then Tr.sub_to_date self remain_day else Tr.current_date self remain_day
+
+/-- No arithmetic node of `date.rs::Trunc for Date::trunc_iso_week` leaves its Rust integer type, no division by zero, no index out of range
+    (path-sensitive; calls contribute the callee's predicate). -/
+def Date.trunc_iso_week_safe (self : Int) : Prop :=
+  let ISO_WEEK_TABLE : List (Bool × Int) :=
+    [(true, 0), (true, 6), (false, 0), (true, 1), (true, 2), (true, 3), (true, 4), (true, 5)]
+  Tr.Date.day_of_week_safe self ∧
+  let week_day : Int := Tr.Date.day_of_week self
+  0 ≤ week_day ∧
+  week_day < 8 ∧
+  let to_first_date_of_week_remain_day : Bool × Int := idxD ISO_WEEK_TABLE week_day (false, 0)
+  let to_first_date_of_week : Bool := to_first_date_of_week_remain_day.1
+  let remain_day : Int := to_first_date_of_week_remain_day.2
+  (to_first_date_of_week = true → Tr.sub_to_date_safe self remain_day) ∧
+  (¬ to_first_date_of_week = true → Tr.current_date_safe self remain_day)
+
+/-- `date.rs::Trunc for Date::trunc_month_start_week` (date.rs:519), body sha1 e5fad7e3023e -/
+-- inlined helpers: date.rs::DateTime for Date::day
+def Date.trunc_month_start_week (self : Int) : Chk Int :=
+  -- date.rs:520: let remain_day = self.day().unwrap() % 7;
+  let remain_day : Int :=
+    rrem ((fun (self : Int) => let t1 : Int × Int × Int := Tr.Date.extract self; let day : Int := t1.2.2; asI32 day) self) 7
+  -- date.rs:521: let trunc_day = if remain_day == 0 { 6 } else { remain_day - 1 };
+  let trunc_day : Int := if remain_day = 0 then 6 else remain_day - 1
+  match Tr.Date.sub_days self trunc_day with
+  | Except.error err => Except.error err
+  | Except.ok r2 =>
+      -- date.rs:522: let res_date = self.sub_days(trunc_day)?;
+      let res_date : Int := r2
+      Except.ok res_date
+
+/-- No arithmetic node of `date.rs::Trunc for Date::trunc_month_start_week` leaves its Rust integer type, no division by zero, no index out of range
+    (path-sensitive; calls contribute the callee's predicate). -/
+def Date.trunc_month_start_week_safe (self : Int) : Prop :=
+  (fun (self : Int) => Tr.Date.extract_safe self) self ∧
+  let remain_day : Int :=
+    rrem ((fun (self : Int) => let t1 : Int × Int × Int := Tr.Date.extract self; let day : Int := t1.2.2; asI32 day) self) 7
+  (¬ remain_day = 0 → fitsI32 (remain_day - 1)) ∧
+  let trunc_day : Int := if remain_day = 0 then 6 else remain_day - 1
+  Tr.Date.sub_days_safe self trunc_day
+
 /-- `date.rs::Trunc for Date::trunc_day` (date.rs:527), body sha1 77e10b773168 -/
 def Date.trunc_day (self : Int) : Chk Int :=
   Except.ok self
@@ -2132,6 +2321,22 @@ def Date.trunc_day (self : Int) : Chk Int :=
     (path-sensitive; calls contribute the callee's predicate). -/
 def Date.trunc_day_safe (self : Int) : Prop :=
   True
+
+/-- `date.rs::Trunc for Date::trunc_sunday_start_week` (date.rs:532), body sha1 b9658a6798be -/
+def Date.trunc_sunday_start_week (self : Int) : Chk Int :=
+  match Tr.Date.sub_days self (Tr.Date.day_of_week self - 1) with
+  | Except.error err => Except.error err
+  | Except.ok r1 =>
+      -- date.rs:533: let res_date = self.sub_days(self.day_of_week() as i32 - 1)?;
+      let res_date : Int := r1
+      Except.ok res_date
+
+/-- No arithmetic node of `date.rs::Trunc for Date::trunc_sunday_start_week` leaves its Rust integer type, no division by zero, no index out of range
+    (path-sensitive; calls contribute the callee's predicate). -/
+def Date.trunc_sunday_start_week_safe (self : Int) : Prop :=
+  Tr.Date.day_of_week_safe self ∧
+  fitsI32 (Tr.Date.day_of_week self - 1) ∧
+  Tr.Date.sub_days_safe self (Tr.Date.day_of_week self - 1)
 
 /-- `date.rs::Trunc for Date::trunc_hour` (date.rs:538), body sha1 77e10b773168 -/
 def Date.trunc_hour (self : Int) : Chk Int :=
@@ -2150,22 +2355,6 @@ def Date.trunc_minute (self : Int) : Chk Int :=
     (path-sensitive; calls contribute the callee's predicate). -/
 def Date.trunc_minute_safe (self : Int) : Prop :=
   True
-
-/-- `date.rs::Trunc for Date::trunc_sunday_start_week` (date.rs:532), body sha1 b9658a6798be -/
-def Date.trunc_sunday_start_week (self : Int) : Chk Int :=
-  match Tr.Date.sub_days self (Tr.Date.day_of_week self - 1) with
-  | Except.error err => Except.error err
-  | Except.ok r1 =>
-      -- date.rs:533: let res_date = self.sub_days(self.day_of_week() as i32 - 1)?;
-      let res_date : Int := r1
-      Except.ok res_date
-
-/-- No arithmetic node of `date.rs::Trunc for Date::trunc_sunday_start_week` leaves its Rust integer type, no division by zero, no index out of range
-    (path-sensitive; calls contribute the callee's predicate). -/
-def Date.trunc_sunday_start_week_safe (self : Int) : Prop :=
-  Tr.Date.day_of_week_safe self ∧
-  fitsI32 (Tr.Date.day_of_week self - 1) ∧
-  Tr.Date.sub_days_safe self (Tr.Date.day_of_week self - 1)
 
 /-- `date.rs::Round for Date::round_century` (date.rs:560), body sha1 e210c0b6b268 -/
 -- inlined helpers: date.rs::DateTime for Date::year
@@ -2262,6 +2451,208 @@ def Date.round_year_safe (self : Int) : Prop :=
       Tr.Date.from_ymd_unchecked_safe year 1 1)) ∧
   (¬ month ≥ 7 → Tr.Date.from_ymd_unchecked_safe year 1 1)
 
+/-- `date.rs::Round for Date::round_quarter` (date.rs:604), body sha1 97bfa585e2e7 -/
+def Date.round_quarter (self : Int) : Chk Int :=
+  -- date.rs:605: const QUARTER_ROUND_MONTH: [u32; 12] = [1, 4, 4, 4, 7, 7, 7, 10, 10, 10, 1, 1];
+  let QUARTER_ROUND_MONTH : List Int := [1, 4, 4, 4, 7, 7, 7, 10, 10, 10, 1, 1]
+  -- date.rs:606: const QUARTER_TRUNC_MONTH: [u32; 12] = [1, 1, 4, 4, 4, 7, 7, 7, 10, 10, 10, 1];
+  let QUARTER_TRUNC_MONTH : List Int := [1, 1, 4, 4, 4, 7, 7, 7, 10, 10, 10, 1]
+  -- date.rs:608: let (mut year, month, day) = self.extract();
+  let year_month_day : Int × Int × Int := Tr.Date.extract self
+  let year : Int := year_month_day.1
+  let month : Int := year_month_day.2.1
+  let day : Int := year_month_day.2.2
+  -- date.rs:609: let is_round = day >= ROUNDS_UP_DAY;
+  let is_round : Bool := decide (day ≥ ROUNDS_UP_DAY)
+  -- date.rs:611: let index = month as usize - 1;
+  let index : Int := month - 1
+  -- date.rs:612: let quarter_month = if is_round {
+  let quarter_month_year : Int × Int :=
+    if is_round = true then
+      -- date.rs:613: if month >= 11 {
+      let year : Int :=
+        if month ≥ 11 then
+          -- date.rs:614: year += 1;
+          let year : Int := year + 1
+          year
+        else
+          year
+      (idxD QUARTER_ROUND_MONTH index 0, year)
+    else
+      -- date.rs:618: if month == 12 {
+      let year : Int :=
+        if month = 12 then
+          -- date.rs:619: year += 1;
+          let year : Int := year + 1
+          year
+        else
+          year
+      (idxD QUARTER_TRUNC_MONTH index 0, year)
+  let quarter_month : Int := quarter_month_year.1
+  let year : Int := quarter_month_year.2
+  -- date.rs:624: if year > DATE_MAX_YEAR {
+  if year > DATE_MAX_YEAR then
+    -- date.rs:625: return Err(Error::DateOutOfRange);
+    Except.error Err.DateOutOfRange
+  else
+    Except.ok (Tr.Date.from_ymd_unchecked year quarter_month 1)
+
+/-- No arithmetic node of `date.rs::Round for Date::round_quarter` leaves its Rust integer type, no division by zero, no index out of range
+    (path-sensitive; calls contribute the callee's predicate). -/
+def Date.round_quarter_safe (self : Int) : Prop :=
+  let QUARTER_ROUND_MONTH : List Int := [1, 4, 4, 4, 7, 7, 7, 10, 10, 10, 1, 1]
+  let QUARTER_TRUNC_MONTH : List Int := [1, 1, 4, 4, 4, 7, 7, 7, 10, 10, 10, 1]
+  Tr.Date.extract_safe self ∧
+  let year_month_day : Int × Int × Int := Tr.Date.extract self
+  let year : Int := year_month_day.1
+  let month : Int := year_month_day.2.1
+  let day : Int := year_month_day.2.2
+  let is_round : Bool := decide (day ≥ ROUNDS_UP_DAY)
+  fitsU64 (month - 1) ∧
+  let index : Int := month - 1
+  (is_round = true →
+    (month ≥ 11 → fitsI32 (year + 1)) ∧
+    let year : Int :=
+      if month ≥ 11 then
+        -- date.rs:614: year += 1;
+        let year : Int := year + 1
+        year
+      else
+        year
+    0 ≤ index ∧ index < 12) ∧
+  (¬ is_round = true →
+    (month = 12 → fitsI32 (year + 1)) ∧
+    let year : Int :=
+      if month = 12 then
+        -- date.rs:619: year += 1;
+        let year : Int := year + 1
+        year
+      else
+        year
+    0 ≤ index ∧ index < 12) ∧
+  let quarter_month_year : Int × Int :=
+    if is_round = true then
+      -- date.rs:613: if month >= 11 {
+      let year : Int :=
+        if month ≥ 11 then
+          -- date.rs:614: year += 1;
+          let year : Int := year + 1
+          year
+        else
+          year
+      (idxD QUARTER_ROUND_MONTH index 0, year)
+    else
+      -- date.rs:618: if month == 12 {
+      let year : Int :=
+        if month = 12 then
+          -- date.rs:619: year += 1;
+          let year : Int := year + 1
+          year
+        else
+          year
+      (idxD QUARTER_TRUNC_MONTH index 0, year)
+  let quarter_month : Int := quarter_month_year.1
+  let year : Int := quarter_month_year.2
+  ¬ year > DATE_MAX_YEAR → Tr.Date.from_ymd_unchecked_safe year quarter_month 1
+
+/-- `date.rs::Round for Date::round_month` (date.rs:632), body sha1 772e386c966b -/
+def Date.round_month (self : Int) : Chk Int :=
+  -- date.rs:633: let (mut year, mut month, day) = self.extract();
+  let year_month_day : Int × Int × Int := Tr.Date.extract self
+  let year : Int := year_month_day.1
+  let month : Int := year_month_day.2.1
+  let day : Int := year_month_day.2.2
+  -- date.rs:634: if day >= ROUNDS_UP_DAY {
+  if day ≥ ROUNDS_UP_DAY then
+    if month = 12 then
+      -- date.rs:636: if year == DATE_MAX_YEAR {
+      if year = DATE_MAX_YEAR then
+        -- date.rs:637: return Err(Error::DateOutOfRange);
+        Except.error Err.DateOutOfRange
+      else
+        -- date.rs:639: year += 1;
+        let year : Int := year + 1
+        -- date.rs:640: month = 1;
+        let month : Int := 1
+        Except.ok (Tr.Date.from_ymd_unchecked year 1 1)
+    else
+      -- date.rs:642: month += 1;
+      let month : Int := month + 1
+      Except.ok (Tr.Date.from_ymd_unchecked year month 1)
+  else
+    Except.ok (Tr.Date.from_ymd_unchecked year month 1)
+
+/-- No arithmetic node of `date.rs::Round for Date::round_month` leaves its Rust integer type, no division by zero, no index out of range
+    (path-sensitive; calls contribute the callee's predicate). -/
+def Date.round_month_safe (self : Int) : Prop :=
+  Tr.Date.extract_safe self ∧
+  let year_month_day : Int × Int × Int := Tr.Date.extract self
+  let year : Int := year_month_day.1
+  let month : Int := year_month_day.2.1
+  let day : Int := year_month_day.2.2
+  (day ≥ ROUNDS_UP_DAY →
+    (month = 12 →
+      (¬ year = DATE_MAX_YEAR →
+        fitsI32 (year + 1) ∧
+        let year : Int := year + 1
+        let month : Int := 1
+        Tr.Date.from_ymd_unchecked_safe year 1 1)) ∧
+    (¬ month = 12 →
+      fitsU32 (month + 1) ∧
+      let month : Int := month + 1
+      Tr.Date.from_ymd_unchecked_safe year month 1)) ∧
+  (¬ day ≥ ROUNDS_UP_DAY → Tr.Date.from_ymd_unchecked_safe year month 1)
+
+/-- `date.rs::Round for Date::round_week` (date.rs:649), body sha1 7e5368b46b38 -/
+-- inlined helpers: date.rs::DateTime for Date::year
+def Date.round_week (self : Int) : Chk Int :=
+  Tr.Date.round_week_internal self ((fun (self : Int) => let t1 : Int × Int × Int := Tr.Date.extract self; let year : Int := t1.1; year) self)
+
+/-- No arithmetic node of `date.rs::Round for Date::round_week` leaves its Rust integer type, no division by zero, no index out of range
+    (path-sensitive; calls contribute the callee's predicate). -/
+def Date.round_week_safe (self : Int) : Prop :=
+  (fun (self : Int) => Tr.Date.extract_safe self) self ∧
+  (Tr.Date.round_week_internal_safe self ((fun (self : Int) => let t1 : Int × Int × Int := Tr.Date.extract self; let year : Int := t1.1; year) self))
+
+/-- `date.rs::Round for Date::round_iso_week` (date.rs:654), body sha1 c772596f367b -/
+def Date.round_iso_week (self : Int) : Chk Int :=
+  -- date.rs:655: const ISO_WEEK_TABLE: [(DateSubMethod, i32); 8] = [
+  let ISO_WEEK_TABLE : List (Bool × Int) :=
+    [(true, 0), (true, -1), (false, 0), (true, 1), (true, 2), (true, 3), (true, -3), (true, -2)]
+  -- date.rs:666: let week_day = self.day_of_week() as usize;
+  let week_day : Int := Tr.Date.day_of_week self
+  -- date.rs:667: let (to_first_date_of_week, remain_day) = ISO_WEEK_TABLE[week_day];
+  let to_first_date_of_week_remain_day : Bool × Int := idxD ISO_WEEK_TABLE week_day (false, 0)
+  let to_first_date_of_week : Bool := to_first_date_of_week_remain_day.1
+  let remain_day : Int := to_first_date_of_week_remain_day.2
+  if to_first_date_of_week = true then Tr.sub_to_date self remain_day else Tr.current_date self remain_day
+
+/-- No arithmetic node of `date.rs::Round for Date::round_iso_week` leaves its Rust integer type, no division by zero, no index out of range
+    (path-sensitive; calls contribute the callee's predicate). -/
+def Date.round_iso_week_safe (self : Int) : Prop :=
+  let ISO_WEEK_TABLE : List (Bool × Int) :=
+    [(true, 0), (true, -1), (false, 0), (true, 1), (true, 2), (true, 3), (true, -3), (true, -2)]
+  Tr.Date.day_of_week_safe self ∧
+  let week_day : Int := Tr.Date.day_of_week self
+  0 ≤ week_day ∧
+  week_day < 8 ∧
+  let to_first_date_of_week_remain_day : Bool × Int := idxD ISO_WEEK_TABLE week_day (false, 0)
+  let to_first_date_of_week : Bool := to_first_date_of_week_remain_day.1
+  let remain_day : Int := to_first_date_of_week_remain_day.2
+  (to_first_date_of_week = true → Tr.sub_to_date_safe self remain_day) ∧
+  (¬ to_first_date_of_week = true → Tr.current_date_safe self remain_day)
+
+/-- `date.rs::Round for Date::round_month_start_week` (date.rs:672), body sha1 9f664faacb59 -/
+-- inlined helpers: date.rs::DateTime for Date::day
+def Date.round_month_start_week (self : Int) : Chk Int :=
+  Tr.Date.round_month_start_week_internal self ((fun (self : Int) => let t1 : Int × Int × Int := Tr.Date.extract self; let day : Int := t1.2.2; asI32 day) self)
+
+/-- No arithmetic node of `date.rs::Round for Date::round_month_start_week` leaves its Rust integer type, no division by zero, no index out of range
+    (path-sensitive; calls contribute the callee's predicate). -/
+def Date.round_month_start_week_safe (self : Int) : Prop :=
+  (fun (self : Int) => Tr.Date.extract_safe self) self ∧
+  (Tr.Date.round_month_start_week_internal_safe self ((fun (self : Int) => let t1 : Int × Int × Int := Tr.Date.extract self; let day : Int := t1.2.2; asI32 day) self))
+
 /-- `date.rs::Round for Date::round_day` (date.rs:677), body sha1 77e10b773168 -/
 def Date.round_day (self : Int) : Chk Int :=
   Except.ok self
@@ -2270,6 +2661,34 @@ def Date.round_day (self : Int) : Chk Int :=
     (path-sensitive; calls contribute the callee's predicate). -/
 def Date.round_day_safe (self : Int) : Prop :=
   True
+
+/-- `date.rs::Round for Date::round_sunday_start_week` (date.rs:682), body sha1 defd31267fa0 -/
+def Date.round_sunday_start_week (self : Int) : Chk Int :=
+  -- date.rs:683: const SUNDAY_START_WEEK_TABLE: [(DateSubMethod, i32); 8] = [
+  let SUNDAY_START_WEEK_TABLE : List (Bool × Int) :=
+    [(true, 0), (false, 0), (true, 1), (true, 2), (true, 3), (true, -3), (true, -2), (true, -1)]
+  -- date.rs:694: let week_day = self.day_of_week() as usize;
+  let week_day : Int := Tr.Date.day_of_week self
+  -- date.rs:695: let (to_first_date_of_week, remain_day) = SUNDAY_START_WEEK_TABLE[week_day];
+  let to_first_date_of_week_remain_day : Bool × Int := idxD SUNDAY_START_WEEK_TABLE week_day (false, 0)
+  let to_first_date_of_week : Bool := to_first_date_of_week_remain_day.1
+  let remain_day : Int := to_first_date_of_week_remain_day.2
+  if to_first_date_of_week = true then Tr.sub_to_date self remain_day else Tr.current_date self remain_day
+
+/-- No arithmetic node of `date.rs::Round for Date::round_sunday_start_week` leaves its Rust integer type, no division by zero, no index out of range
+    (path-sensitive; calls contribute the callee's predicate). -/
+def Date.round_sunday_start_week_safe (self : Int) : Prop :=
+  let SUNDAY_START_WEEK_TABLE : List (Bool × Int) :=
+    [(true, 0), (false, 0), (true, 1), (true, 2), (true, 3), (true, -3), (true, -2), (true, -1)]
+  Tr.Date.day_of_week_safe self ∧
+  let week_day : Int := Tr.Date.day_of_week self
+  0 ≤ week_day ∧
+  week_day < 8 ∧
+  let to_first_date_of_week_remain_day : Bool × Int := idxD SUNDAY_START_WEEK_TABLE week_day (false, 0)
+  let to_first_date_of_week : Bool := to_first_date_of_week_remain_day.1
+  let remain_day : Int := to_first_date_of_week_remain_day.2
+  (to_first_date_of_week = true → Tr.sub_to_date_safe self remain_day) ∧
+  (¬ to_first_date_of_week = true → Tr.current_date_safe self remain_day)
 
 /-- `date.rs::Round for Date::round_hour` (date.rs:700), body sha1 77e10b773168 -/
 def Date.round_hour (self : Int) : Chk Int :=
